@@ -91,7 +91,7 @@ def add(wt, n, prop, checks, tier):
         if not ok:
             print(name, 'repository tests fail with it:', last)
             return 1
-        meta['checks'] = run_checks(d, checks, tier)
+        meta['checks'] = run_checks(d, relevant_checks(patch, prop) if RELEVANT_ONLY else checks, tier)
     finally:
         drop(d)
     bad = {k: v['verdict'] for k, v in meta['checks'].items() if v['rc']}
